@@ -152,11 +152,20 @@ def run_property(pid, tier, seed, replay=None):
                 broken.append(dict(kind="translate", name="missing function", detail=m))
 
     # 2. compile
-    files = (["Src.v"] if spec else []) + cfg.get("files", [])
+    # a file entry is a name in coq/<id>/ or {"from": "Cyy/File.v", "as": "Name.v"}: another property's model file compiled
+    # against THIS property's regenerated source (module prefix Cyy. rewritten to <id>.)
+    file_entries = cfg.get("files", [])
+    file_names = [f if isinstance(f, str) else f["as"] for f in file_entries]
+    files = (["Src.v"] if spec else []) + file_names
     per_file_timeout = cfg.get("coqc_timeout", 150 if tier == "quick" else 400)
     vpaths = []
-    for f in cfg.get("files", []):
-        shutil.copy(os.path.join(pdir, f), os.path.join(bdir, f))
+    for f in file_entries:
+        if isinstance(f, str):
+            shutil.copy(os.path.join(pdir, f), os.path.join(bdir, f))
+        else:
+            other = f["from"].split("/")[0]
+            txt = open(os.path.join(VERIF, "coq", f["from"])).read().replace(other + ".", pid + ".")
+            open(os.path.join(bdir, f["as"]), "w").write(txt)
     failed_from = None
     coq_time = 0.0
     for f in files:
@@ -216,8 +225,6 @@ def run_property(pid, tier, seed, replay=None):
         cmd = [PY, os.path.join(VERIF, "harness", cfg["oracle"]), "--tier", tier, "--seed", str(seed), "--out", oout]
         if replay:
             cmd += ["--replay", replay]
-        if broken:
-            cmd += ["--focus", broken[0]["name"]]
         rc, out, err, dt = sh(cmd, cfg.get("oracle_timeout", 300 if tier == "quick" else 1500), cwd=VERIF, env=env)
         log.append("oracle rc=%d %.1fs" % (rc, dt))
         if rc != 0 or not os.path.exists(oout):
